@@ -9,6 +9,7 @@ import AdaVerif.Model.Protocol
 import AdaVerif.Model.HostSetter
 import AdaVerif.Model.AggHostSetter
 import AdaVerif.Model.ParseSpecial
+import AdaVerif.Model.ParseAgg
 import Driver.UrlCmd
 /- agg.edit <state> <editor> <hexarg> : apply one Model editor to a buffer-with-offsets state.
    state = buf,pe,ue,hs,he,port,ps,ss,hh,opq   (hex buffer, decimal offsets, '-' = omitted) -/
@@ -77,6 +78,7 @@ def applyEditor (a : Agg) (ed : String) (x : Bytes) (flags : Option (Bool × Boo
   | "set_hostname" =>
     let dflt := if special then (Spec.defaultPort (getProtocol a).dropLast).getD 0 else 0
     some (setHostA true idna 4000000000 special isFile dflt a x).1
+  | "set_href" => some (Model.ParseAgg.setHrefA idna 4000000000 a x).1
   | "clear_pathname" => some (clearPathname a)
   | "set_pathname" => some (setPathnameM 4000000000 (if isFile then 6 else if special then 0 else 1) special a x).1
   | "set_search" => if x.isEmpty then none else some (setSearchM 4000000000 special a x)
@@ -230,6 +232,42 @@ def cmdParseBase (a : List String) : String :=
         let o (x : Option Bytes) : String := match x with | some b => hexs b | none => "!"
         s!"{hexs r.scheme} {if r.special then 1 else 0} {hexs r.username} {hexs r.password} {o r.host} {showOpt r.port} " ++
         s!"{hexs r.path} {o r.query} {o r.hash} {if r.opq then 1 else 0}"
+  | _ => "bad-op"
+
+/-- parse.agg <hexinput> [hints] : the model of parse_url_impl<ada::url_aggregator, true>(input, nullptr): buffer and offsets -/
+def cmdParseAgg (a : List String) : String :=
+  match a with
+  | input :: hintArgs =>
+    let idna := mkIdna (parseHints hintArgs)
+    let probe := match Model.ParseAgg.parseNoBaseA idna (unhexs input) with
+      | some g => findMarker idna (getHostname g)
+      | none => none
+    match probe with
+    | some d => s!"need-idna {hexs d}"
+    | none =>
+    match (match limitArg hintArgs with
+      | some L => Model.ParseAgg.parseNoBaseAL idna L (unhexs input)
+      | none => Model.ParseAgg.parseNoBaseA idna (unhexs input)) with
+    | none => "invalid"
+    | some g => dumpAgg g
+  | _ => "bad-op"
+
+/-- parse.aggbase <hexinput> <base state> [hints] : the model of parse_url_impl<ada::url_aggregator, true>(input, &base) on the
+    buffer and offsets of the real base object; "other" = a route the model leaves out (file) -/
+def cmdParseAggBase (a : List String) : String :=
+  match a with
+  | input :: st :: hintArgs =>
+    let idna := mkIdna (parseHints hintArgs)
+    match parseAgg st with
+    | none => "bad-state"
+    | some base =>
+      match Model.ParseAgg.machineBA idna base (unhexs input) with
+      | none => "other"
+      | some none => "invalid"
+      | some (some g) =>
+        match (if getHostname g == getHostname base then none else findMarker idna (getHostname g)) with
+        | some d => s!"need-idna {hexs d}"
+        | none => dumpAgg g
   | _ => "bad-op"
 
 end Driver
